@@ -100,4 +100,21 @@ def runSingle (A : Arith) (c : Cfg) : Option Bucket → List Nat → List Bool
     let r := step1 A c b t
     r.2 :: runSingle A c (some r.1) ts
 
+/-! the same limiter over a bare admission function (no laws attached): what the driver runs with the
+    executable binary32 arithmetic; `enqueueF A.allow = enqueue A` is proved in Props/C13 -/
+
+def stepBF (allow : Nat → Nat → Nat → Nat → Nat → Bool) (c : Cfg) (b : Bucket) (now : Nat) : Bucket × Bool :=
+  let b1 := roll c now b
+  if allow b1.prev b1.cur c.limit (now - b1.win) c.d then ({ b1 with cur := b1.cur + 1 }, true)
+  else (b1, false)
+
+def enqueueF (allow : Nat → Nat → Nat → Nat → Nat → Bool) (c : Cfg) (s : State) (k now : Nat) : State × Bool :=
+  let r := stepBF allow c ((lookup k s.buckets).getD (freshB now)) now
+  let bs := upsert k r.1 s.buckets
+  if r.2 then
+    if now - s.lastCleanup ≥ 2 * c.d then
+      ({ buckets := bs.filter (keep c now), lastCleanup := now }, true)
+    else ({ s with buckets := bs }, true)
+  else ({ s with buckets := bs }, false)
+
 end Passage.RL
